@@ -29,6 +29,31 @@ def answerTree (toks : List String) : List String :=
     | none => ["O tree ERR"]
   | _ => ["O tree ERR"]
 
+/-- `q` and `−q` are the same rotation: make the component of largest magnitude positive -/
+def canonQuat (q : List Float) : List Float :=
+  let m := q.foldl (fun (acc : Float) x => if x.abs > acc.abs then x else acc) 0
+  if m < 0 then q.map (fun x => -x) else q
+
+/-- `I e2q <type> a0 a1 a2 p0 p1 p2` : the quaternion `convertToQuaternions` must return for Euler angles `a` -/
+def answerE2Q (toks : List String) : List String :=
+  match toks with
+  | ty :: rest =>
+    let d := rest.map hexToFloat
+    let h (i : Nat) : Float := d.getD i 0 / 2
+    let e := eulerQuat (Float.cos (h 0)) (Float.sin (h 0)) (Float.cos (h 1)) (Float.sin (h 1)) (Float.cos (h 2)) (Float.sin (h 2))
+    let q := canonQuat [e.a, e.b, e.c, e.d]
+    let tail := if ty == "free" || ty == "freeline" then (d.drop 3).take 3 else []
+    [line "quat" (q ++ tail)]
+  | _ => ["O quat ERR"]
+
+/-- `I fb <mob record>` : transform / velocity of the FunctionBased mirror (`Spec.fbX0`, inverted if reversed) -/
+def answerFB (c : Case) : List String :=
+  let b := c.body
+  let k := b.kin Xf.one SV.zero
+  match b.spec.fbX0 b.C with
+  | some X => [line "X_FM" (xfL (realizeX b.rev X)), line "V_FM" (svL k.V_FM)]
+  | none => ["O fb ERR"]
+
 def main : IO Unit := do
   let lines ← readStdinLines
   let out ← IO.getStdout
@@ -37,5 +62,13 @@ def main : IO Unit := do
     | "I" :: "tree" :: rest =>
       out.putStrLn ln.trimAscii.toString
       for l in answerTree rest do out.putStrLn l
+    | "I" :: "e2q" :: rest =>
+      out.putStrLn ln.trimAscii.toString
+      for l in answerE2Q rest do out.putStrLn l
+    | "I" :: "fb" :: rest =>
+      out.putStrLn ln.trimAscii.toString
+      match parseCase rest with
+      | some c => for l in answerFB c do out.putStrLn l
+      | none => out.putStrLn "O fb ERR"
     | "I" :: _ => out.putStrLn ln.trimAscii.toString
     | _ => pure ()
